@@ -193,7 +193,7 @@ var mutations = []mutDef{
 	{"sign-wrong-amount", "witv0", 4000, 3}, {"sign-wrong-scriptcode", "ecdsa", 1, 2}, {"sign-wrong-input-index", "ecdsa", 1, 1},
 	{"sign-wrong-sigversion", "ecdsa", 1, 2}, {"sign-wrong-key", "ecdsa", 24, 2}, {"high-s", "ecdsa", 1, 4},
 	{"s-plus-n", "ecdsa", 1, 2}, {"r-plus-n", "ecdsa", 1, 1}, {"s-zero", "ecdsa", 1, 1}, {"der", "ecdsa", 30, 8}, {"der", "ecdsa", 1450, 2},
-	{"sig-bitflip", "ecdsa", 600, 4}, {"sig-truncate", "ecdsa", 3, 1}, {"sig-no-hashtype", "ecdsa", 1, 1},
+	{"sig-bitflip", "ecdsa", 600, 4}, {"sig-truncate", "ecdsa", 3, 1}, {"sig-no-hashtype", "ecdsa", 1, 1}, {"sig-hashtype-is-last-s-byte", "ecdsa", 256, 3},
 	{"key-uncompressed", "ecdsa", 1, 3}, {"key-hybrid", "ecdsa", 1, 3}, {"key-hybrid-wrong-parity", "ecdsa", 1, 1}, {"key-bitflip", "ecdsa", 520, 3},
 	{"key-x-ge-p", "ecdsa", 5, 1}, {"key-truncated", "ecdsa", 1, 1}, {"key-empty", "ecdsa", 1, 1}, {"extra-stack-item", "inner", 1, 3},
 	{"extra-stack-item", "wpkh", 1, 1}, {"pkh-hash-mismatch", "pkh", 20, 1},
